@@ -615,9 +615,11 @@ func (m *Mint) RequestMeltQuote(meltQuoteRequest nut05.PostMeltQuoteBolt11Reques
 	quoteAmount := invoiceSatAmount
 
 	// check if a mint quote exists with the same invoice.
-	_, err = m.db.GetMintQuoteByPaymentHash(bolt11.PaymentHash)
+	mintQuote, err := m.db.GetMintQuoteByPaymentHash(bolt11.PaymentHash)
 	isInternal := false
-	if err == nil {
+	// the payment hash alone is not enough: an invoice for a different
+	// amount can be crafted with the payment hash of a mint quote
+	if err == nil && mintQuote.PaymentRequest == request {
 		isInternal = true
 	}
 
@@ -879,7 +881,7 @@ func (m *Mint) MeltTokens(ctx context.Context, meltTokensRequest nut05.PostMeltB
 	// before asking backend to send payment, check if quotes can be settled
 	// internally (i.e mint and melt quotes exist with the same invoice)
 	mintQuote, err := m.db.GetMintQuoteByPaymentHash(meltQuote.PaymentHash)
-	if err == nil {
+	if err == nil && mintQuote.PaymentRequest == meltQuote.InvoiceRequest {
 		m.logDebugf("quotes '%v' and '%v' have same invoice so settling them internally", meltQuote.Id, mintQuote.Id)
 		meltQuote, err = m.settleQuotesInternally(mintQuote, meltQuote)
 		if err != nil {
